@@ -9,7 +9,7 @@ Open Scope Z_scope.
 
 (* the document that follows the encoded message *)
 Inductive doc := DLit (l : bytes) | DGen (seed len : N).
-(* ipp.data as observed: the bytes, or (long documents) length and FNV-1a/64 *)
+(* ipp.data as observed: the bytes, or (long documents) length and a 32-bit hash *)
 Inductive dobs := DOLit (l : bytes) | DOHash (len h : N).
 
 Inductive iobs :=
@@ -50,9 +50,10 @@ Definition doc_bytes (d : doc) : bytes :=
   | DGen seed len => gen_doc (N.to_nat len) (N.land seed 65535)
   end.
 
-Definition fnv64 (l : bytes) : N :=
-  fold_left (fun h b => N.land ((N.lxor h b) * 1099511628211) 18446744073709551615)%N l
-            14695981039346656037%N.
+(* hash of long documents: h0 = 5381, h' = ((33 h) xor b) mod 2^32 (32-bit arithmetic keeps
+   vm_compute fast on 64 KiB documents) *)
+Definition dhash (l : bytes) : N :=
+  fold_left (fun h b => N.land (N.lxor (h * 33) b) 4294967295)%N l 5381%N.
 
 (* boolean equality of byte strings (structural; eqb_bytes computes proofs and is slow
    under vm_compute on kilobyte strings) *)
@@ -68,7 +69,7 @@ Definition nlen (l : bytes) : N := N.of_nat (length l).
 Definition data_ok (expect : bytes) (o : dobs) : bool :=
   match o with
   | DOLit l => beq l expect
-  | DOHash len h => (len =? nlen expect)%N && (h =? fnv64 expect)%N
+  | DOHash len h => (len =? nlen expect)%N && (h =? dhash expect)%N
   end.
 
 Definition raw_of (c : icase) : bytes := c_head c ++ doc_bytes (c_doc c).
@@ -119,18 +120,19 @@ Definition dec_matches (m : res msg) (o : decobs) : bool :=
 Definition model_dec (c : icase) : res msg :=
   let raw := raw_of c in dec_msg (fuel_for raw) raw.
 
-Definition model_obs (c : icase) : hres :=
-  match model_dec c with
+Definition hres_of (r : res msg) : hres :=
+  match r with
   | ROk body => handle_msg body
   | RErr => HNoReply
   | RFuel => HHang
   end.
-
-Definition model_fmt (c : icase) : bytes :=
-  match model_dec c with
+Definition fmt_of (r : res msg) : bytes :=
+  match r with
   | ROk body => pj_format (snd (response_of body))
   | _ => []
   end.
+Definition model_obs (c : icase) : hres := hres_of (model_dec c).
+Definition model_fmt (c : icase) : bytes := fmt_of (model_dec c).
 
 (* the bytes sent must be the specification encoding of the structured message, and so
    must be what the package's own encoders produce for it *)
@@ -138,12 +140,17 @@ Definition head_ok (c : icase) : bool :=
   negb (c_structured c) || beq (enc_msg (c_msg c)) (c_head c).
 Definition enc_ok (c : icase) : bool := c_encsame c.
 
+(* the model is run once per case *)
+Definition case_agrees (c : icase) : bool :=
+  let r := model_dec c in
+  head_ok c && enc_ok c
+  && dec_matches r (c_dec c)
+  && obs_matches (hres_of r) (c_obs c)
+  && beq (fmt_of r) (c_hfmt c)
+  && c_hsame c.
+
 Definition mismatches (cs : list icase) : list N :=
-  map c_id (filter (fun c => negb (head_ok c && enc_ok c
-                                   && dec_matches (model_dec c) (c_dec c)
-                                   && obs_matches (model_obs c) (c_obs c)
-                                   && beq (model_fmt c) (c_hfmt c)
-                                   && c_hsame c)) cs).
+  map c_id (filter (fun c => negb (case_agrees c)) cs).
 
 (* ---- the property on the implementation's own observation ---- *)
 (* the first operation group of the request as encoded *)
